@@ -107,7 +107,7 @@ def assemble(src: str, rom: str = "low_rom", defines=None, cwd: str | None = Non
             if err is not None:
                 res["status"] = "rejected"
                 res["error"] = err
-            res["labels"] = sorted(p.resolver.get_all_labels())
+            res["labels"] = list(p.resolver.get_all_labels())
     except Timeout:
         res["status"] = "timeout"
     except RecursionError as e:
@@ -117,7 +117,7 @@ def assemble(src: str, rom: str = "low_rom", defines=None, cwd: str | None = Non
         if isinstance(e, (KeyboardInterrupt, SystemExit, MemoryError)):
             raise
         res["status"] = "rejected"
-        res["exc"] = type(e).__name__
+        res["exc"] = {"error": "struct.error", "FileNotFoundError": "OSError"}.get(type(e).__name__, type(e).__name__)
         res["error"] = str(e)[:300]
     finally:
         if cwd:
